@@ -84,3 +84,26 @@ package band
 //@   loop 0: invariant idx: rangeindex >= 0 - 1 && rangeindex < len(channels)
 //@   loop 0: invariant none-so-far: forall j int :: 0 <= j && j <= rangeindex ==> channels[j] != i
 //@   loop 0: decreases len(channels) - rangeindex
+
+// C14: the function that applies LinkADRReq payloads to a device's channel set (the planner's
+// executable specification): total for arbitrary (negative, too large, unsorted) device channels and
+// arbitrary payloads, writes nothing the caller can see, and reports the indices whose final mask bit
+// is set, in increasing order (recurrences on the three loops).
+//@ func (*band).GetEnabledUplinkChannelIndicesForLinkADRReqPayloads
+//@   props C14
+//@   modifies nothing
+//@   ensures fresh: err == nil ==> result0 == nil || fresh(result0)
+//@   loop 0: invariant idx: rangeindex >= 0 - 1 && rangeindex < len(deviceEnabledChannels) && len(chMask) == len(b.uplinkChannels) && fresh(chMask)
+//@   loop 0: modifies chMask[0:len(chMask)]
+//@   loop 0: decreases len(deviceEnabledChannels) - rangeindex
+//@   loop 1: invariant idx: rangeindex >= 0 - 1 && rangeindex < len(pls) && len(chMask) == len(b.uplinkChannels) && fresh(chMask)
+//@   loop 1: modifies chMask[0:len(chMask)], pl
+//@   loop 1: decreases len(pls) - rangeindex
+//@   loop 3: invariant idx: rangeindex >= 0 - 1 && rangeindex < len(chMask) && fresh(chMask)
+//@   loop 3: invariant out-fresh: out == nil || fresh(out)
+//@   loop 3: invariant out-len: len(out) <= rangeindex + 1
+//@   loop 3: invariant out-range: forall j int :: 0 <= j && j < len(out) ==> 0 <= out[j] && out[j] <= rangeindex && chMask[out[j]]
+//@   loop 3: step take: chMask[rangeindex] ==> len(out) == prev(len(out)) + 1 && out[len(out)-1] == rangeindex
+//@   loop 3: step skip: !chMask[rangeindex] ==> len(out) == prev(len(out))
+//@   loop 3: step keep: forall j int :: 0 <= j && j < prev(len(out)) ==> out[j] == prev(out[j])
+//@   loop 3: decreases len(chMask) - rangeindex
